@@ -719,8 +719,18 @@ class ParserStream(Stream):
             x = rng.random()
             if x < 0.35:
                 yield {"fn": "petags", "v": "".join(rng.choice(ETAG_TOK) for _ in range(rng.randrange(1, 8)))}
-            elif x < 0.6:
+            elif x < 0.45:
                 yield {"fn": "prange", "v": "".join(rng.choice(RANGE_TOK) for _ in range(rng.randrange(1, 9)))}
+            elif x < 0.6:
+                # near-valid: ascending / overlapping / suffix items with optional blanks
+                items, pos = [], 0
+                for _ in range(rng.choice([1, 1, 2, 3])):
+                    a = pos + rng.choice([0, 0, 1, 3]) - (1 if rng.random() < 0.1 else 0)
+                    b = a + rng.choice([0, 1, 5])
+                    sp = rng.choice(["", "", " ", "\t"])
+                    items.append(rng.choice([f"{a}{sp}-{sp}{b}", f"{a}-", f"-{b}", f"{a}-{b}", f"{b}-{a}"]))
+                    pos = b + 1
+                yield {"fn": "prange", "v": rng.choice(["bytes", "bytes", "Bytes ", " items"]) + "=" + rng.choice([",", ", ", " ,"]).join(items)}
             elif x < 0.75:
                 yield {"fn": "unquote", "v": "".join(rng.choice(ETAG_TOK) for _ in range(rng.randrange(1, 5)))}
             elif x < 0.9:
